@@ -1,4 +1,4 @@
-// C07 correspondence harness (uses harness/ceq_tree.h, CEQ_TREE_VERSION 3).
+// C07 correspondence harness (uses harness/ceq_tree.h, CEQ_TREE_VERSION 4).
 // For every case: random tree + ONE constraint of one built-in type on random bodies/mobilities, random VIOLATED state
 // (q,u arbitrary), arbitrary udot.
 //
@@ -28,19 +28,19 @@ using vh::hex;
 
 static void putV3(vh::Line& L, const Vec3& v) { for (int i = 0; i < 3; ++i) L.d(v[i]); }
 static void putKin(vh::Line& L, const Transform& X, const SpatialVec& V, const SpatialVec& A) {
-    for (int i = 0; i < 3; ++i) for (int j = 0; j < 3; ++j) L.d(X.R()(i, j));
+    for (int i = 0; i < 3; ++i) for (int j = 0; j < 3; ++j) L.d(X.R().asMat33()(i, j));
     putV3(L, X.p()); putV3(L, V[0]); putV3(L, V[1]); putV3(L, A[0]); putV3(L, A[1]);
 }
 static double relErr(const Vector& a, const Vector& b, double floorScale = 1.0) {
     double sc = std::max(floorScale, std::max(maxAbs(a), maxAbs(b)));
-    double e = 0; for (int i = 0; i < a.size(); ++i) e = std::max(e, std::abs(a[i] - b[i]));
     if (a.size() != b.size()) return NAN;
+    double e = 0; for (int i = 0; i < a.size(); ++i) { double d = std::abs(a[i] - b[i]); if (!(d <= e)) e = d; }   // NaN propagates
     return e / sc;
 }
 static double relErrM(const Matrix& a, const Matrix& b) {
     if (a.nrow() != b.nrow() || a.ncol() != b.ncol()) return NAN;
     double sc = 1, e = 0;
-    for (int i = 0; i < a.nrow(); ++i) for (int j = 0; j < a.ncol(); ++j) { sc = std::max(sc, std::max(std::abs(a(i, j)), std::abs(b(i, j)))); e = std::max(e, std::abs(a(i, j) - b(i, j))); }
+    for (int i = 0; i < a.nrow(); ++i) for (int j = 0; j < a.ncol(); ++j) { sc = std::max(sc, std::max(std::abs(a(i, j)), std::abs(b(i, j)))); double d = std::abs(a(i, j) - b(i, j)); if (!(d <= e)) e = d; }
     return e / sc;
 }
 
@@ -64,7 +64,7 @@ static State shifted(Model& M, const State& s0, const Vector& qdot, const Vector
     return s;
 }
 
-static void implChecks(Model& M, const ConsInfo& ci, vh::Rng& g, long caseNo, const Vector& udot, const Vector& lambda) {
+static void implChecks(Model& M, const ConsInfo& ci, vh::Rng& g, long caseNo, const Vector& udot, const Vector& lambda, const std::string& icls) {
     const std::string T = consName(ci.type);
     State& s = M.state;
     const SimbodyMatterSubsystem& matter = M.matter;
@@ -73,8 +73,8 @@ static void implChecks(Model& M, const ConsInfo& ci, vh::Rng& g, long caseNo, co
     const int m = mp + mv + ma, nu = s.getNU(), nq = s.getNQ();
     vh::I("chk").s(T).i(caseNo).emit();
     vh::O("chk").i(1).emit();
-    vh::D("chk." + T + "." + ci.cls);
-    const std::string K = T + "." + ci.cls;   // key prefix: <Type>.<attachment class>
+    vh::D("chk." + T + "." + ci.cls + "." + icls);
+    const std::string K = T + "." + icls;   // key prefix: <Type>.<input class: violated | onManifold>
 
     Errs e0 = errorsAt(M, ci, s, udot);
     const Vector qdot = s.getQDot();
@@ -135,7 +135,7 @@ static void implChecks(Model& M, const ConsInfo& ci, vh::Rng& g, long caseNo, co
         Vector bias; matter.calcBiasForAccelerationConstraints(s, bias);
         Vector z(nu, 0.0), a0; matter.calcConstraintAccelerationErrors(s, z, a0);
         vh::P("bias_is_aerr0", K + ".bias_is_aerr0", relErr(bias, a0), 1e-12);
-        Vector lin = G * udot + bias;
+        Vector lin = G * udot + a0;
         vh::P("aerr_affine", K + ".aerr_affine", relErr(lin, e0.pva), 1e-10);
         // [pverr;verr] is affine in u with the same matrix for the holonomic+nonholonomic rows whose V is u-independent;
         // checked only for holonomic rows (P = P(t,q)):  pverr(u) - pverr(0) = P u
@@ -212,6 +212,12 @@ static void modelRecord(Model& M, const ConsInfo& ci, const Vector& udot, const 
             x[k] = s.getQ()[qx]; xd[k] = s.getQDot()[qx]; xdd[k] = qdd[qx];
         }
         L.i(nArgs);
+        // the mobility (u slot) each argument addresses: the implementation accumulates forces per mobility
+        for (int i = 0; i < nArgs; ++i) {
+            const MobilizedBody& B = M.bodies[ci.cmobs[i]];
+            int idx = i < (int)ci.cu.size() ? ci.cu[i] : ci.cq[i - ci.cu.size()];
+            L.i((int)B.getFirstUIndex(s) + idx);
+        }
         for (int i = 0; i < nArgs; ++i) L.d(x[i]).d(xd[i]).d(xdd[i]);
         if (ci.fn) {
             Vector arg = x;
@@ -222,6 +228,7 @@ static void modelRecord(Model& M, const ConsInfo& ci, const Vector& udot, const 
         }
     }
     for (int i = 0; i < lambda.size(); ++i) L.d(lambda[i]);
+    if (ci.type == cSpeedCoupler) L.d((double)ci.nSpeedArgs);   // number of leading speed arguments
     L.emit();
     vh::Line O = vh::O(T);
     for (int i = 0; i < e.p.size(); ++i) O.d(e.p[i]);
@@ -245,7 +252,7 @@ static void modelRecord(Model& M, const ConsInfo& ci, const Vector& udot, const 
             if (seen[ux]) O.d(0.0); else { O.d(byU.count(ux) ? byU[ux] : 0.0); listed += std::abs(byU.count(ux) ? byU[ux] : 0.0); seen[ux] = true; }
         }
         // everything else must be zero
-        vh::P("no_stray_mobility_force", T + ".mobility.stray", std::abs(total - listed), 0.0);
+        vh::P("no_stray_mobility_force", T + ".mobility.stray", std::abs(total - listed), 1e-12);
         O.emit();
     } else O.emit();
     vh::D("model." + T + "." + ci.cls + (bodyType && ci.c.getAncestorMobilizedBody().getMobilizedBodyIndex() != 0 ? ".ancNotGround" : ""));
@@ -275,8 +282,29 @@ static void oneCase(vh::Rng& g, long caseNo, int type, bool wantModel, bool want
     M.system.realize(M.state, Stage::Velocity);
     int mp, mv, ma; ci.c.getNumConstraintEquationsInUse(M.state, mp, mv, ma);
     Vector udot = rvector(g, M.state.getNU()), lambda = rvector(g, mp + mv + ma);
+    if (std::getenv("CEQ_DEBUG")) {
+        std::fprintf(stderr, "case %ld %s euler=%d bodies:", caseNo, consName(type), (int)M.matter.getUseEulerAngles(M.state));
+        for (int i = 1; i < M.nb(); ++i) std::fprintf(stderr, " %d:%s<-%d", i, mobName(M.mtype[i]), M.parent[i]);
+        std::fprintf(stderr, " | cb:"); for (int b : ci.cbodies) std::fprintf(stderr, " %d", b);
+        std::fprintf(stderr, " cm:"); for (int b : ci.cmobs) std::fprintf(stderr, " %d", b);
+        std::fprintf(stderr, "\n");
+    }
     if (wantModel && modelled(type)) modelRecord(M, ci, udot, lambda);
-    if (wantChecks) implChecks(M, ci, g, caseNo, udot, lambda);
+    if (wantChecks) implChecks(M, ci, g, caseNo, udot, lambda, "violated");
+    if (wantChecks && mp + mv > 0) {
+        // second input class: the same system projected onto the position and velocity manifolds (any method of
+        // producing such a state will do; the predicates are evaluated afresh)
+        bool ok = true;
+        try { M.system.project(M.state, 1e-11); } catch (const std::exception&) { ok = false; }
+        if (ok) {
+            M.system.realize(M.state, Stage::Velocity);
+            double en = 0;
+            if (mp) en = std::max(en, maxAbs(ci.c.getPositionErrorsAsVector(M.state)));
+            en = std::max(en, maxAbs(ci.c.getVelocityErrorsAsVector(M.state)));
+            en = std::max(en, std::max(maxAbs(M.state.getQ()), maxAbs(M.state.getU())) > 1e3 ? 1.0 : 0.0);
+            if (en < 1e-9) implChecks(M, ci, g, caseNo, udot, lambda, "onManifold");
+        }
+    }
 }
 
 int main(int argc, char** argv) {
@@ -292,7 +320,11 @@ int main(int argc, char** argv) {
     for (long k = 0; k < a.n; ++k) {
         vh::Rng g(a.seed * 1000003ull + (uint64_t)k * 7919ull + 17);
         int type = (int)(k % cNumCons);
-        try { oneCase(g, k, type, true, true); }
+        const bool mobilityType = (type == cConstantCoordinate || type == cCoordinateCoupler || type == cPrescribedMotion);
+        try {
+            if (mobilityType) { oneCase(g, k, type, true, false); oneCase(g, k, type, false, true); }
+            else oneCase(g, k, type, true, true);
+        }
         catch (const std::exception& e) {
             vh::I("chk").s(consName(type)).i(k).emit();
             std::string w = e.what(); for (auto& ch : w) if (ch == ' ' || ch == '\n') ch = '_';
